@@ -558,13 +558,25 @@ def r6_legal_filter(ctx):
            ctx.where(f), sample={"filters": len(filters), "always_probing": len(strict)})
     g = ctx.fn(rid, BB + "is_move_legal")
     try:
-        gp = returning_paths(g)
-        calls = [t[1] for b, t in gp[0].calls if t[0] == "call"] if len(gp) == 1 else []
-        r = gp[0].ret() if len(gp) == 1 else None
-        ok = calls[:3] == [BB + "make", BB + "is_valid", BB + "unmake"] and r is not None and r[0] == "call" and r[1] == BB + "is_valid"
-    except NotLoopFree:
-        ok = False
-    ctx.ob(rid, "is_move_legal|make-is_valid-unmake", ok, "" if ok else "is_move_legal is not `make; is_valid; unmake` returning is_valid's result", ctx.where(g))
+        gp = returning_paths(g, limit=20000)
+    except (NotLoopFree, OverflowError):
+        gp = None
+    if not gp:
+        ctx.lost(rid, "is_move_legal as a loop-free function")
+    else:
+        # on every returning path: make, then is_valid, then unmake (other calls - assertions, snapshots - may sit in
+        # between), and the answer is what is_valid said
+        bad = []
+        for pe in gp:
+            calls = [t[1] for b, t in pe.calls if t[0] == "call"]
+            want = [BB + "make", BB + "is_valid", BB + "unmake"]
+            it = iter(calls)
+            in_order = all(any(c == w for c in it) for w in want)
+            r = pe.ret()
+            from_valid = any(x[0] == "call" and x[1] == BB + "is_valid" for x in [r] + list(leaves(r)))
+            if not in_order or not from_valid:
+                bad.append("calls %s, returns %s" % ([c.rsplit("::", 1)[-1] for c in calls if c.startswith(BB)], show(r)[:60]))
+        ctx.ob(rid, "is_move_legal|make-is_valid-unmake", not bad, "" if not bad else "is_move_legal is not `make; is_valid; unmake` returning is_valid's result on every path: %s" % bad[0], ctx.where(g))
     h = ctx.fn(rid, BB + "is_any_move_legal")
     hex_ = Exprs(h)
     hcfg = Cfg(h)
@@ -646,6 +658,15 @@ def r8_hand_written_steps(ctx, rid="C01.R8"):
                 left = rv["bop"].startswith("Shl")
                 up = (left and amt["v"] in (9, 1)) or (not left and amt["v"] == 7)      # file + 1
                 operand = ex.operand(rv["a"][0])
+                # a small value widened to 64 bits and shifted into its field of a packed word (`(piece as u64) << 7`)
+                # is no occupancy
+                core_ = operand
+                if core_[0] == "cast" and core_[3] in ("u8", "u16", "u32", "bool", "usize", "i32"):
+                    continue
+                from ..panics import upper_bound
+                ub_ = upper_bound(core_, f)
+                if ub_ is not None and ub_ < (1 << 32):
+                    continue
                 # the constant masks AND-ed into the operand
                 allowed = (1 << 64) - 1
                 def walk(t):
